@@ -205,6 +205,7 @@ var sigCatalogue = []string{
 	"[i]", "[s]", "[m]", "[b]", "[W]", "[v]", "()", "(i)", "(s)", "(m)", "(ss)", "(sb)", "(iI)",
 	"{sI}", "{sm}", "{Is}", "{ii}", "[[i]]", "[(s)]", "[()]", "([i])", "([m])", "{s[m]}", "[{sI}]",
 	"()<P>", "(s)<P,a>", "(sb)<P,a,b>", "(i)<P,a>", "(m)<P,a>",
+	"(ff)<Pair<float>,value,confidence>", "{Iv}", "{vv}", "[[v]]",
 	// grammatical but inconsistent annotations (more / fewer names than members)
 	"()<P,a>", "(i)<P,a,b>", "(ii)<P,a>", "[(i)<P,a,b>]", "(i)<P>",
 }
